@@ -85,7 +85,7 @@ func init() {
 			}
 		}})
 
-	register(&Rule{ID: "C20.balance", Props: []string{"C20"}, Floor: 6,
+	register(&Rule{ID: "C20.balance", Props: []string{"C20", "C05"}, Floor: 6,
 		Doc: "every reported delegation balance is GetDelegationTokens of the records loaded for that delegation; it agrees with the cap used by Undelegate",
 		Run: func(e *Engine, r *RuleRun) {
 			n := 0
